@@ -10,7 +10,7 @@ from geolib import call_impl
 from proto import ET, dec_bools, proj_close_nn, run_driver
 
 ID = "C16"
-LEAN_FILES = ["Geo/Props/C16.lean", "Geo/Props/C16b.lean"]
+LEAN_FILES = ["Geo/Props/C16.lean", "Geo/Props/C16b.lean", "Geo/Props/C16c.lean"]
 RULE = ("simple polygons with 3-5 vertices on the 4x4 lattice (quick: random sample; thorough: every one up to translation) x every "
         "lattice and half-lattice query point of [-1,4]^2 (edges, vertices, extensions of edges, level with a vertex), every rotation "
         "and reversal of the vertex cycle; Triangle.contains on the triangles; copies embedded in 3-space under rational affine maps with "
